@@ -64,7 +64,7 @@ def third_party_script(kind, rnd_hex):
 @st.composite
 def op_strategy(draw):
     kind = draw(st.sampled_from(["fund"] * 5 + ["spend"] * 5 + ["claim", "support", "abandon", "mine", "mine",
-                                                                  "deliver", "deliver", "deliver"]))
+                                                                  "deliver", "deliver", "deliver", "reconnect"]))
     op = {"op": kind}
     if kind in ("fund", "claim", "support"):
         op.update(acct=draw(st.sampled_from([0, 0, 0, 1, 1, 2])), chain=draw(st.sampled_from([0, 0, 0, 1])),
@@ -170,6 +170,8 @@ class StubNetwork:
         self.gate = None
         self.client = None
         self.delivered = {}
+        self.subscribed = None      # None: first session (every wallet address counts as subscribed); else the addresses the
+        #                             wallet subscribed since the last reconnect: only those are notified
 
     async def retriable_call(self, function, *args, **kwargs):
         if self.gate is not None:
@@ -198,6 +200,8 @@ class StubNetwork:
         for a in (address,) + addresses:
             s = self.chain.status(self.ledger.address_to_hash160(a))
             self.delivered[a] = s
+            if self.subscribed is not None:
+                self.subscribed.add(a)
             res.append(s)
         return res
 
@@ -380,6 +384,8 @@ async def run_async(case, out):
             for r in rows:
                 h = ledger.address_to_hash160(r["address"])
                 s = chain.status(h)
+                if net.subscribed is not None and r["address"] not in net.subscribed:
+                    continue        # a new session: the server only knows what was subscribed in it
                 if delivered.get(r["address"]) != s:
                     changed.append((r["address"], s))
             if not changed:
@@ -643,6 +649,16 @@ async def run_async(case, out):
         elif kind == "mine":
             chain.mine()
             out.label("mine")
+        elif kind == "reconnect":
+            # the connection to the server is replaced: the wallet subscribes its accounts again (what join_network does per
+            # account); the new session reports every address's current status and from now on notifies only what it was told
+            net.subscribed = set()
+            for acc in env.accounts:
+                await ledger.subscribe_account(acc)
+            await settle(env)
+            if env.bg_errors:
+                raise env.bg_errors[0]
+            out.label("reconnect")
         elif kind == "deliver":
             ok = await deliver(op)
             if not ok:
@@ -682,5 +698,5 @@ PARTS = [
     Part("burst", burst_case, run_case, 300, 3000, quick_shards=8, thorough_shards=16, essential=("burst_same_address",)),
     Part("sync", case_strategy, run_case, 300, 3000, quick_shards=8, thorough_shards=16,
          essential=("concurrent", "spend", "claim", "support", "abandon", "mine", "fund_gap3", "spend_unconfirmed_parent",
-                    "third:multisig", "third:random", "single_key_account", "burst_same_address", "max_uses:2", "via_process_status_update")),
+                    "third:multisig", "third:random", "single_key_account", "burst_same_address", "max_uses:2", "via_process_status_update", "reconnect")),
 ]
